@@ -41,6 +41,46 @@ theorem C20_error_contract (f : Family) (e : Err) (env : Env) :
 /-- the hypotheses are met by a non-trivial case: a zombie on FreeBSD is reported as ZombieProcess -/
 example : wrapExceptions cfg .bsd ⟨.ESRCH, none⟩ ⟨42, .zombie, true⟩ = .zombie 42 true := by decide
 
+/-- **C20_zombie_codes_documented.** The native codes each identity's `PROC_STATUSES` maps to
+    STATUS_ZOMBIE are exactly the ones the platform documents as zombie (OpenBSD: SDEAD and SZOMB). -/
+theorem C20_zombie_codes_documented : ∀ p ∈ Platform.all, zombieCodesOf p = Spec.zombieCodes p := by
+  decide +kernel
+
+/-- **C20_zombie_probe_sees_documented_codes.** For every identity and every native status code of
+    its table, the comparison `is_zombie(pid)` makes (translator fact: through `PROC_STATUSES`, or
+    against one constant) says "zombie" exactly for the documented zombie codes. A probe that only
+    knows `SZOMB` fails this on OpenBSD (`SDEAD`). -/
+theorem C20_zombie_probe_sees_documented_codes :
+    ∀ p ∈ Platform.all, ∀ code ∈ statusCodesOf p, probeIsZombie zcfg p code = Spec.documentedZombie p code := by
+  decide +kernel
+
+/-- **C20_error_contract_status_codes.** The contract in terms of the native status code: for every
+    identity, every status code of its table (or no record at all: gone), every error, pid and
+    pid-0 listing, the decorator — with the pid state as `is_zombie` derives it from that code —
+    yields the contract cell for the world in which the process is a zombie iff the platform
+    documents the code as zombie. In particular ESRCH on an OpenBSD `SDEAD` process is
+    ZombieProcess(pid, name, ppid), not NoSuchProcess. -/
+theorem C20_error_contract_status_codes :
+    ∀ p ∈ Platform.all, ∀ status ∈ none :: (statusCodesOf p).map some, ∀ (e : Err) (pid : Nat) (listed : Bool),
+      wrapExceptions cfg p.family e (probeEnv zcfg p pid status listed)
+        = Spec.contract p.family e (Spec.docEnv p pid status listed) := by
+  intro p hp status hs e pid listed
+  rw [C20_error_contract]
+  have henv : probeEnv zcfg p pid status listed = Spec.docEnv p pid status listed := by
+    cases status with
+    | none => rfl
+    | some c =>
+      have hc : c ∈ statusCodesOf p := by simpa using hs
+      simp [probeEnv, Spec.docEnv, C20_zombie_probe_sees_documented_codes p hp c hc]
+  rw [henv]
+
+/-- non-vacuous: OpenBSD, ESRCH, status slot = SDEAD → ZombieProcess; a probe that compares with
+    `SZOMB` only would answer NoSuchProcess there -/
+example : wrapExceptions cfg .bsd ⟨.ESRCH, none⟩ (probeEnv zcfg .openbsd 42 (some "SDEAD") true) = .zombie 42 true ∧
+    wrapExceptions cfg .bsd ⟨.ESRCH, none⟩
+      (probeEnv { zcfg with probe := fun _ => .eqConst "SZOMB" } .openbsd 42 (some "SDEAD") true) = .nsp 42 true := by
+  decide +kernel
+
 /-- **C20_error_contract_methods.** The contract holds for every method of the generated
     per-platform method list that carries the decorator: whatever OSError leaves its body. -/
 theorem C20_error_contract_methods (p : Platform) (m : Method) (_hm : m ∈ methodsOf p)
